@@ -587,6 +587,12 @@ func componentCase(c *Case) (*WF, string) {
 			src.Files = append(src.Files, p)
 			w.Sources[p] = b.String()
 		}
+		if t.Choose(simrt.StGen, 6, 0) == 1 {
+			// one line longer than bufio.Scanner's 64 KiB token limit: failing loudly
+			// is fine, silently dropping the rest of the file is not
+			f := src.Files[t.Choose(simrt.StGen, len(src.Files), 0)]
+			w.Sources[f] += strings.Repeat("L", 70000) + "\nlast line\n"
+		}
 		s := addNode(w, src)
 		sp := addNode(w, Node{Name: "split", Kind: KSplitter, SplitLines: 1 + t.Choose(simrt.StGen, 3, 0), Rec: true,
 			Ins: []InSpec{{Name: "file", From: []Edge{{s, "out"}}}}, Outs: []OutSpec{{Name: "split_file"}}})
@@ -624,9 +630,7 @@ func componentCase(c *Case) (*WF, string) {
 		}
 		cc := addNode(w, Node{Name: "cat", Kind: KConcat, OutPath: "concat/all.txt", Rec: true, GroupBy: groupBy,
 			Ins: []InSpec{{Name: "in", From: from}}, Outs: []OutSpec{{Name: "out"}}})
-		if groupBy == "" {
-			oneToOne(w, "use", Edge{cc, "out"})
-		}
+		oneToOne(w, "use", Edge{cc, "out"})
 	case "globber":
 		names := []string{"data/a1.txt", "data/a2.txt", "data/b1.txt", "data/b2.dat", "other/a1.txt", "data/ab.txt", "top.txt"}
 		var present []string
@@ -753,6 +757,14 @@ func init() {
 				return Viol("component-deadlock", kind, "workflow around %s never returns: %s", kind, endDesc(inc))
 			}
 			if !completedOK(inc) {
+				if kind == "splitter" && inc.Sim.End == simrt.EndExit {
+					for _, content := range w.Sources {
+						if strings.Contains(content, strings.Repeat("L", 66000)) {
+							c.Probe("splitter-refuses-over-long-line")
+							return OK() // (a line beyond the scanner's token limit: refusing is legitimate)
+						}
+					}
+				}
 				return Viol("no-completion", kind, "workflow around %s did not complete: %s", kind, endDesc(inc))
 			}
 			root := inc.Sim.FS.Root
@@ -809,6 +821,17 @@ func init() {
 					}
 					blocks = append(blocks, fid.data+"\n")
 				}
+				// whoever received an output of the Concatenator read its final bytes
+				// (the file must be complete when it is handed downstream)
+				for _, oi := range inc.Sim.Shell.Insts {
+					if oi.Name != "use" || len(oi.Inputs) == 0 || len(oi.InData) == 0 {
+						continue
+					}
+					fp := cleanPath(oi.Cwd + "/" + oi.Inputs[0])
+					if fid, ok := idOf(root, fp); ok && string(oi.InData[0]) != fid.data {
+						return Viol("concat-content", kind, "the consumer of %s read %q (%d bytes) when it received the file; the file finally holds %d bytes: it was handed downstream before it was complete", strings.TrimPrefix(fp, "/work/"), clip(oi.InData[0]), len(oi.InData[0]), len(fid.data))
+					}
+				}
 				nEdges := len(w.NodeByName("cat").Ins[0].From)
 				if tg := w.NodeByName("tagg"); tg != nil {
 					// grouped: one output per group value, each = its members in arrival
@@ -832,7 +855,7 @@ func init() {
 						}
 					}
 					for pth, e := range WorkFiles(root) {
-						if strings.HasPrefix(pth, "/work/concat/all.txt.grp_") && !strings.HasSuffix(pth, ".audit.json") && e.Kind == simrt.KFile {
+						if strings.HasPrefix(pth, "/work/concat/all.txt.grp_") && !strings.HasSuffix(pth, ".audit.json") && !strings.Contains(pth, ".use.") && e.Kind == simrt.KFile {
 							if _, ok := groups[strings.TrimPrefix(pth, "/work/concat/all.txt.grp_")]; !ok {
 								return Viol("concat-content", kind, "GroupByTag: unexpected group output %s", pth)
 							}
